@@ -66,7 +66,8 @@ class AbstractDissimilarity(metaclass=ABCMeta):
         self.delta_empty = np.float32(delta_empty)
         if categories is not None and len(categories) == 0:
             raise ValueError("Cannot declare categorical dissimilarity with no categories.")
-        self.categories = categories
+        # own copy : the set given is often a continuum's live category set, which grows with the continuum
+        self.categories = None if categories is None else SortedSet(categories)
 
         self.d_mat: Callable[[np.ndarray, np.ndarray], float] = self.compile_d_mat()
         self.check_if_dissim()
